@@ -100,6 +100,13 @@ def configs(tier):
         cfg = dict(BASE)
         cfg.update({"loading": loading, "network-files": files, "file-formats": fmts})
         add(cfg, "family:loading")
+    # ... or a thermal process the --cooling option then names (registered when the module is executed, i.e. at render time)
+    for loading, cooling, extra in (("fc.py", "USER_H", ""), ("fc.py", "CIC_HI, USER_H", "e-"), ("fa.py,fc.py", "USER_H,CIC_HI", "e-"), ("fc.py", "USER_H, USER_HE", "He")):
+        cfg = dict(BASE)
+        cfg.update({"loading": loading, "cooling": cooling, "extra-species": extra})
+        if "fa.py" in loading:
+            cfg.update({"network-files": "net.fa", "file-formats": "fa"})
+        add(cfg, "family:loading-cooling")
     # a family in which the three species symbols decide how the species lists are read
     # (names with the bulk prefix are not readable by the species parser at all, so the bulk symbol only reaches the TOML)
     for grain, surf, bulk in (("GRAIN", "#", "@"), ("DUST", "#", "@"), ("GRAIN", "G", "@"), ("GRAIN", "#", "B"), ("DUST", "G", "B")):
@@ -275,6 +282,11 @@ def write_inputs(proj: Path):
             "from naunet.network import define_reaction\nfrom naunet.reactions.kidareaction import KIDAReaction\n\n\n"
             f"@define_reaction(\"{nm}\")\nclass Format{nm.upper()}(KIDAReaction):\n    pass\n"
         )
+    (proj / "fc.py").write_text(
+        "from naunet.thermalprocess import ThermalProcess, supported_cooling_process\n\n"
+        "supported_cooling_process[\"USER_H\"] = ThermalProcess([\"H\", \"H\"], \"1.0e-30 * sqrt(Temp)\")\n"
+        "supported_cooling_process[\"USER_HE\"] = ThermalProcess([\"He\", \"H\"], \"2.0e-31 * Temp\")\n"
+    )
     (proj / "iceuc.ucl").write_text(
         "SIO,FREEZE,NAN,#SIO,NAN,NAN,NAN,1.0,0.0,0.0,10,41000\nCO,FREEZE,NAN,#CO,NAN,NAN,NAN,1.0,0.0,0.0,10,41000\n"
         "#SIO,DEUVCR,NAN,SIO,NAN,NAN,NAN,1.0,0.0,0.0,10,41000\n#CO,DEUVCR,NAN,CO,NAN,NAN,NAN,1.0,0.0,0.0,10,41000\n"
